@@ -760,7 +760,7 @@ impl Sim for StoreSim {
     }
     fn runs(_p: &str, tier: Tier) -> u64 {
         match tier {
-            Tier::Quick => 60_000,
+            Tier::Quick => 100_000,
             Tier::Thorough => 3_000_000,
         }
     }
